@@ -386,10 +386,13 @@ func (e *strEnv) observe() string {
 }
 
 type strResult struct {
-	actions []string
-	obs     []string
-	env     *strEnv
-	stuck   string
+	free         bool // the scenario left the scripted regime: monitors only
+	raceStranded int
+	raceTrials   int
+	actions      []string
+	obs          []string
+	env          *strEnv
+	stuck        string
 }
 
 func (e *strEnv) endRead(end *strEnd, read func(m *[]byte) error) {
@@ -419,6 +422,82 @@ func (e *strEnv) endWrite(end *strEnd, v int, write func(m *[]byte) error) {
 		end.written = append(end.written, v)
 	}
 	e.mu.Unlock()
+}
+
+// closeRace: see the `closerace` action.
+func (e *strEnv) closeRace(n int) (stranded, trials int) {
+	stop := make(chan struct{})
+	var wg sync.WaitGroup
+	pump := func(q *[]linkFrame, ch chan feedItem) {
+		defer wg.Done()
+		for {
+			select {
+			case <-stop:
+				return
+			default:
+			}
+			e.mu.Lock()
+			var fr *linkFrame
+			if len(*q) > 0 {
+				f := (*q)[0]
+				*q = (*q)[1:]
+				fr = &f
+			}
+			e.mu.Unlock()
+			if fr == nil {
+				time.Sleep(20 * time.Microsecond)
+				continue
+			}
+			select {
+			case ch <- feedItem{frame: fr.raw}:
+			case <-stop:
+				return
+			}
+		}
+	}
+	wg.Add(2)
+	go pump(&e.c2s, e.sfeed)
+	go pump(&e.s2c, e.cfeed)
+	rnd := prng.New(uint64(n) * 7919)
+	for i := 0; i < n; i++ {
+		st, err := e.conn.NewStream("T.Stream")
+		if err != nil || st == nil {
+			break
+		}
+		trials++
+		done := make(chan error, 1)
+		go func() {
+			var m []byte
+			done <- st.ReadMessage(nil, &m)
+		}()
+		for spin := rnd.Intn(40); spin > 0; spin-- {
+			_ = spin * spin
+		}
+		go st.Close()
+		select {
+		case <-done:
+		case <-time.After(2 * time.Second):
+			stranded++
+		}
+		if stranded > 0 {
+			break
+		}
+	}
+	close(stop)
+	wg.Wait()
+	// let the handlers of the race streams go
+	e.mu.Lock()
+	for _, t := range e.ss {
+		if !t.exited {
+			select {
+			case <-t.exitC:
+			default:
+				close(t.exitC)
+			}
+		}
+	}
+	e.mu.Unlock()
+	return
 }
 
 func runStrScenario(sc strScenario) *strResult {
@@ -640,6 +719,12 @@ func runStrScenario(sc strScenario) *strResult {
 				e.sEnded = true
 				e.mu.Unlock()
 			}
+		case "closerace":
+			// n streams, each closed by its owner at the very moment a ReadMessage on it starts: the
+			// reader must come back with ErrStreamShutdown however the two interleave. The link is
+			// pumped automatically meanwhile; the scenario is monitor-only (res.free).
+			res.free = true
+			res.raceStranded, res.raceTrials = e.closeRace(atoi(f[1]))
 		case "probe":
 		default:
 			ok = false
@@ -754,7 +839,10 @@ func checkStr(sc strScenario, r *strResult) []connVerdict {
 			add("C04", "one-response", "C04/unary-beside-streams/"+mode, fmt.Sprintf("unary request %s was read by the server next to stream traffic and got %d responses", name, n))
 		}
 	}
-	if r.stuck != "" {
+	if r.raceStranded > 0 {
+		add("C10", "reader-released", "C10/read-raced-with-close-stranded/"+mode, fmt.Sprintf("a ReadMessage that started at the moment its stream was closed was still blocked 2 s later (trial %d)", r.raceTrials))
+	}
+	if r.stuck != "" && !r.free {
 		add("C10", "quiescence", "C10/stream-not-quiescent", "the process did not become quiescent within 3 s after action "+r.stuck)
 	}
 	return out
@@ -784,6 +872,7 @@ func strCorpus() []strScenario {
 		mk("cut-with-parked-readers", "copen", "copen", "ds", "ds", "dc", "dc", "cread 0", "sread 0", "sread 1", "swrite 1 4", "cut 0 0", "ceof", "seof", "cread 1", "swrite 0 5", "cwrite 0 6", "probe")
 		mk("cut-keeps-prefix", "copen", "ds", "dc", "swrite 0 1", "swrite 0 2", "swrite 0 3", "cwrite 0 7", "cwrite 0 8", "cut 1 2", "dc", "dc", "ds", "cread 0", "cread 0", "cread 0", "sread 0", "sread 0", "ceof", "seof", "probe")
 		mk("cut-while-opening", "copen", "copen", "ds", "cut 0 0", "ceof", "seof", "probe")
+		mk("close-races-read", "closerace 1500")
 		mk("close-after-end", "copen", "ds", "dc", "cut 0 0", "ceof", "cclose 0", "cread 0", "seof", "sread 0", "probe")
 	}
 	return out
@@ -889,7 +978,10 @@ func runOneStr(i int, sc strScenario) *scenarioOut {
 		inl = append(inl, a)
 		iml = append(iml, res.obs[j])
 	}
-	out.Streams = map[string][2][]string{"t": {inl, iml}}
+	if !res.free {
+		out.Streams = map[string][2][]string{"t": {inl, iml}}
+	}
+	out.Counters["closerace.trials"] += res.raceTrials
 	kinds := make([]string, len(res.actions))
 	for j, a := range res.actions {
 		kinds[j] = strings.Fields(a)[0]
